@@ -7,9 +7,14 @@
 // trace. The same text is run by an independent reference interpreter (ref.go);
 // trace, final response marker and returned error must be equal. Wrapping
 // plugins re-run their continuation zero, one or two times, concurrently on
-// two qCtx.Copy()s, and keep it to run it later (after the wrapper returned;
+// two qCtx.Copy()s, on the original and a qCtx.Copy() (sequentially in both
+// orders and concurrently), and keep it to run it later (after the wrapper returned;
 // after the whole top-level execution returned and other programs ran), each
-// run with its own trace buffer; the process runs under -race.
+// run with its own trace buffer; the process runs under -race. Rules read and
+// write per-query state (marks through the real plugin/mark and harness
+// plugins, stored values, the query message, the response in place) so that
+// what one context does after a copy was taken must not change which rules
+// the continuation executes on the other.
 package main
 
 import (
@@ -95,6 +100,8 @@ func compare(exp, obs *result, runaway bool, panicked any) (string, string) {
 			key := "trace-differs"
 			if strings.Contains(exp.Trace[i], " join ") && strings.Contains(obs.Trace[i], " join ") {
 				key = "conc-branch-mismatch"
+			} else if strings.Contains(exp.Trace[i], " copy [") && strings.Contains(obs.Trace[i], " copy [") {
+				key = "copy-run-mismatch" // the continuation run on a Copy of the query (while the original ran it too) took different rules
 			} else if strings.HasPrefix(exp.Trace[i], "W ") && strings.HasPrefix(obs.Trace[i], "W ") && strings.Fields(exp.Trace[i])[1] == strings.Fields(obs.Trace[i])[1] {
 				key = "wrapper-observation-differs"
 			}
@@ -274,7 +281,7 @@ func checkProgram(w *world, p *Program, onlyEntry, onlyPreset int, st *stats, dq
 			for _, n := range ft.wrapKinds {
 				wrapN += n
 			}
-			stateMatters = ft.hEval > 0 || wrapN > 0
+			stateMatters = ft.hEval > 0 || wrapN > 0 || ft.stateReads["rcode"] > 0
 			obs, pend, runaway, panicked := realExec(seqs[e], preset, 4*steps+64)
 			if st != nil {
 				st.evals++
@@ -302,7 +309,11 @@ func checkProgram(w *world, p *Program, onlyEntry, onlyPreset int, st *stats, dq
 						fp += "|preset"
 					}
 					rep.Nontrivial(fp)
-					for name, n := range map[string]int{"jump": ft.jump, "goto": ft.gotoN, "return": ft.retPending + ft.retTop, "wrapper": wrapN, "negation": ft.negEval} {
+					isoN := 0
+					for _, n := range ft.isoReads {
+						isoN += n
+					}
+					for name, n := range map[string]int{"jump": ft.jump, "goto": ft.gotoN, "return": ft.retPending + ft.retTop, "wrapper": wrapN, "negation": ft.negEval, "state_read_isolated_from_a_related_context": isoN} {
 						if n > 0 {
 							st.nonTrivBy[name]++
 						}
@@ -366,6 +377,19 @@ func mergeFeats(d, s *feats) {
 	}
 	d.skipped += s.skipped
 	d.matched += s.matched
+	d.copyRuns += s.copyRuns
+	for k, v := range s.stateReads {
+		d.stateReads[k] += v
+	}
+	for k, v := range s.stateWrites {
+		d.stateWrites[k] += v
+	}
+	for k, v := range s.isoReads {
+		d.isoReads[k] += v
+	}
+	for k, v := range s.isoReadsByWrap {
+		d.isoReadsByWrap[k] += v
+	}
 	for k, v := range s.deferredReg {
 		d.deferredReg[k] += v
 	}
@@ -376,6 +400,8 @@ func mergeFeats(d, s *feats) {
 func maybeSample(p *Program, entry int, exp *result, ft *feats) {
 	class := ""
 	switch {
+	case ft.isoReads["mark-real"] > 0 && ft.copyRuns > 0 && ft.maxDepth >= 1:
+		class = "copy-run+marks-isolated"
 	case ft.rerunAfterPendingReturn > 0 && ft.gotoPending > 0:
 		class = "twice-wrapper+goto-inside-jump"
 	case ft.acceptUnderPostNested > 0:
@@ -560,9 +586,10 @@ func main() {
 	caselog = evid.OpenCaseLog()
 	registerQuickSetups()
 	debug.SetMaxStack(256 << 20) // a walker that recurses forever must die quickly, not eat 16 x 1 GB
-	rep.SetRule("programs = corner-case grids (G1 control grid {terminator in callee} x {jump,goto} x {terminator in caller} x {no wrapper, 14 wrapper kinds} x {jump,goto}; G2 wrapper inside a jumped sequence; G3 every matcher tuple of length 0..3 over {T,F,E,has-response,_true,_false} x {plain,!}; G4 nesting depth 1..6 with a wrapper at every level; G5 top-level return/accept/reject; G6 stacked wrappers) + seeded random programs (1-6 sequences x 0-7 rules x 0-3 matchers, DAG references in build order); each rendered to rule text with random white space / '!' spelling / '$tag' vs '$tag args' (quick-configure) vs 'type args' (quick-setup) and loaded via NewSequence, the plugin-type registry or yaml->WeakDecode; every sequence of a program is executed as a top-level entry = one evaluation (again with a response already present if the execution looks at the response). Wrapper kinds: continue once / stop / zero times + own response / post-process / post-process + set / swallow error / twice / twice with drop / concurrently on two copies / KEEP the continuation and run it later on a copy of the query: by a goroutine released when the wrapper Exec returns (lateg, lategc) or after the top-level Exec returned and >= 2 other programs plus an unrelated jumping program ran on the same goroutine, alternately on the same and on a new goroutine, once (later, laterc) or three times (later3); each late run is compared on its own with the reference trace of the same remaining rules. Non-trivial = the reference trace has >= 3 entries and the execution actually performed at least one jump/goto/return/wrapper/negated-matcher evaluation; distinct = canonical text (labels, ids, white space, text form removed) of the sequences reachable from the entry.")
+	rep.SetRule("programs = corner-case grids (G1 control grid {terminator in callee} x {jump,goto} x {terminator in caller} x {no wrapper, 14 wrapper kinds} x {jump,goto}; G2 wrapper inside a jumped sequence; G3 every matcher tuple of length 0..3 over {T,F,E,has-response,_true,_false} x {plain,!}; G4 nesting depth 1..6 with a wrapper at every level; G5 top-level return/accept/reject; G6 stacked wrappers; G7 per-query state {marks via the real plugin/mark, marks via harness plugins, mixed, stored values, the query message id, the response modified in place} x {12 wrapper kinds, 9 of which run the continuation on Copy()s of the query} x {state pre-seeded: none / another key / the key under test / both} x {key set or cleared by the continuation} x {continuation inline or inside a jumped sequence}) + seeded random programs (1-6 sequences x 0-7 rules x 0-3 matchers, DAG references in build order); each rendered to rule text with random white space / '!' spelling / '$tag' vs '$tag args' (quick-configure) vs 'type args' (quick-setup) and loaded via NewSequence, the plugin-type registry or yaml->WeakDecode; every sequence of a program is executed as a top-level entry = one evaluation (again with a response already present if the execution looks at the response). Wrapper kinds: continue once / stop / zero times + own response / post-process / post-process + set / swallow error / twice / twice with drop / concurrently on two copies / KEEP the continuation and run it later on a copy of the query: by a goroutine released when the wrapper Exec returns (lateg, lategc) or after the top-level Exec returned and >= 2 other programs plus an unrelated jumping program ran on the same goroutine, alternately on the same and on a new goroutine, once (later, laterc) or three times (later3); each late run is compared on its own with the reference trace of the same remaining rules; or run it on the original AND on a Copy() taken before (cpa: original first, as fallback does; cpb: copy first; cpc: at the same time, the copy on a new goroutine, as lazy cache update / dual_selector do). Rules also read and write per-query state (matchers: real 'mark N..', harness has-mark / has-value / query-id / response-rcode, all but the real one traced with the value seen; actions: real 'mark N..', set/delete mark, store/delete value, change the query id, change the response rcode in place): the reference gives every context the state as it was when it was copied plus its own writes, so a read on one context after (or while) a related context wrote the same key must still see its own value; a further 20000 (thorough 500000) 'stateful' random programs are biased to such rules and copying wrappers. Non-trivial = the reference trace has >= 3 entries and the execution actually performed at least one jump/goto/return/wrapper/negated-matcher evaluation; distinct = canonical text (labels, ids, white space, text form removed) of the sequences reachable from the entry.")
 	rep.Assume("the reference interpreter (cmd/c06/ref.go: own text parser, explicit continuation stack) encodes the property statement; 'goto never comes back' is read as: all pending jump returns are dropped (goto = jump + accept), as DESIGN.md C06 states")
 	rep.Assume("harness plugin behaviour (what each test matcher/action/wrapper does with the response and with the errors it sees) is specified twice, in plugins.go and in ref.go; a discrepancy there would show as a false alarm on the unchanged tree, not as a missed violation")
+	rep.Assume("query_context.Context.Copy() yields an independent context (plugin/mark, fallback, dual_selector and the lazy cache rely on it): what a rule does on the original after the copy was taken is invisible to the rules run on the copy and vice versa; only matcher verdicts / rules executed are compared, not the final state")
 	rep.Assume("programs whose reference trace exceeds 1500 entries (exponential blow-up of nested twice/conc wrappers) are discarded before they reach mosdns and are not counted")
 	rep.Assume("an error is 'reported to the caller' if errors.As finds the plugin's error in the returned error (wrapping is allowed)")
 
@@ -586,7 +613,8 @@ func main() {
 
 	tmpl := templates()
 	nRandom := int64(rep.Pick(30000, 1000000))
-	total := int64(len(tmpl)) + nRandom
+	nStateful := int64(rep.Pick(20000, 500000))
+	total := int64(len(tmpl)) + nRandom + nStateful
 	workers := runtime.GOMAXPROCS(0)
 	if workers > 16 {
 		workers = 16
@@ -624,14 +652,16 @@ func main() {
 				if end > total {
 					end = total
 				}
-				caselog.Log(map[string]any{"seed": rep.Seed, "tier": rep.Tier, "program_index_from": start, "program_index_to": end, "note": "program i < " + fmt.Sprint(len(tmpl)) + " is template i, else random program regenerated from mix(seed,i)"})
+				caselog.Log(map[string]any{"seed": rep.Seed, "tier": rep.Tier, "program_index_from": start, "program_index_to": end, "note": "program i < " + fmt.Sprint(len(tmpl)) + " is template i, the next " + fmt.Sprint(nRandom) + " are random programs, the rest stateful random programs, regenerated from mix(seed,i)"})
 				for i := start; i < end; i++ {
 					rng := rand.New(rand.NewSource(mix(rep.Seed, i)))
 					var lp *lprog
 					if i < int64(len(tmpl)) {
 						lp = tmpl[i]
-					} else {
+					} else if i < int64(len(tmpl))+nRandom {
 						lp = genRandom(rng, i)
+					} else {
+						lp = genStateful(rng, i)
 					}
 					p := render(lp, rng)
 					current[wi].Store(p)
@@ -742,6 +772,22 @@ func main() {
 	c("ref:has_response_matcher_evaluations", ft.hEval)
 	c("ref:continuation_rerun_with_pending_jump_return", ft.rerunAfterPendingReturn)
 	c("ref:concurrent_continuation_branches", ft.concBranch)
+	c("ref:continuation_run_on_original_and_on_a_copy(cpa/cpb/cpc)", ft.copyRuns)
+	isoTotal := 0
+	for k, v := range ft.stateReads {
+		c("ref:state_reads_"+k, v)
+	}
+	for k, v := range ft.stateWrites {
+		c("ref:state_writes_"+k, v)
+	}
+	for k, v := range ft.isoReads {
+		c("ref:state_reads_isolated_from_a_related_context_"+k, v)
+		isoTotal += v
+	}
+	for k, v := range ft.isoReadsByWrap {
+		c("ref:state_reads_isolated,copy_made_by_"+k, v)
+	}
+	c("ref:state_reads_isolated_from_a_related_context(total)", isoTotal)
 	for k, v := range ft.wrapKinds {
 		c("ref:wrapper_"+k, v)
 	}
@@ -783,6 +829,16 @@ func main() {
 			"zero-times wrapper":                                  ft.wrapKinds["stop"] + ft.wrapKinds["zero"],
 			"nesting depth 6":                                     boolInt(ft.maxDepth >= 6),
 			"yaml loader":                                         int(tot.loaders["yaml"]),
+			"continuation on original and copy":                   ft.copyRuns,
+			"mark (real plugin) read isolated from a related context's write": ft.isoReads["mark-real"],
+			"mark read isolated from a related context's write":               ft.isoReads["mark"],
+			"stored value read isolated":                                      ft.isoReads["value"],
+			"query message read isolated":                                     ft.isoReads["query-id"],
+			"response rcode read isolated":                                    ft.isoReads["rcode"],
+			"response presence read isolated":                                 ft.isoReads["response"],
+			"isolated read with the copy made by cpa (original ran first)":    ft.isoReadsByWrap["cpa"],
+			"isolated read with the copy made by cpc (concurrent)":            ft.isoReadsByWrap["cpc"],
+			"isolated read with the copy kept for a late run":                 ft.isoReadsByWrap["laterc"] + ft.isoReadsByWrap["lategc"],
 		}
 		var missing []string
 		for k, v := range need {
